@@ -12,15 +12,26 @@ KF_C02(o) == "NEW"
    for blocks in several positions (`( [ ] )`, after a suffix operator, before a value) the result has a parent that does
    not list the block as child, and the block or its neighbour owns no instruction.  Matcher: a tree / attribution
    failure of a program that contains a SideEffect node. *)
-\* the positions in which the unchanged tree mishandles a side-effect block S: directly after / inside another block
-\* (its parent is a SideEffect node), as the only content of a group or nested expression that then does not list it,
-\* or directly after a suffix operator
-HasSideEffect(o) == \E i \in DOMAIN o.nodes :
-   LET n == o.nodes[i] IN
+\* The parser supports a side-effect block only between plain values / binary operators (its own tests: side_effects::*).
+\* The signature of the finding is a SideEffect node whose own links are inconsistent in one of the four ways below; a
+\* program whose side-effect blocks are all linked consistently never matches, whatever else is wrong with it.
+RECURSIVE UnderSE(_, _, _)
+UnderSE(o, j, fuel) == fuel > 0 /\ j >= 0 /\ j < Len(o.nodes) /\ (o.nodes[j + 1].d = "SideEffect" \/ UnderSE(o, o.nodes[j + 1].p, fuel - 1))
+\* a prefix operator or opening bracket after a closed block is hung below the last operator INSIDE the block (stale next_parent)
+HungIntoBlock(o) == \E j \in DOMAIN o.nodes :
+   LET n == o.nodes[j] IN
+   /\ n.sec \in {"UnaryPrefix", "StartGrouping"}
+   /\ n.p >= 0 /\ n.p < Len(o.nodes)
+   /\ o.nodes[n.p + 1].l # j - 1 /\ o.nodes[n.p + 1].r # j - 1
+   /\ UnderSE(o, n.p, Len(o.nodes))
+HasSideEffect(o) == HungIntoBlock(o) \/ \E i \in DOMAIN o.nodes :
+   LET n == o.nodes[i]
+       In(k) == k >= 0 /\ k < Len(o.nodes) IN
    /\ n.d = "SideEffect"
-   /\ \/ (n.p >= 0 /\ n.p < Len(o.nodes) /\ o.nodes[n.p + 1].d = "SideEffect")
-      \/ (n.p >= 0 /\ n.p < Len(o.nodes) /\ o.nodes[n.p + 1].d \in {"Group", "NestedExpression"} /\ o.nodes[n.p + 1].l # i - 1 /\ o.nodes[n.p + 1].r # i - 1)
-      \/ (n.l >= 0 /\ n.l < Len(o.nodes) /\ o.nodes[n.l + 1].sec = "UnarySuffix")
+   /\ \/ (In(n.p) /\ o.nodes[n.p + 1].d = "SideEffect")                                             \* a block directly inside a block
+      \/ (In(n.p) /\ o.nodes[n.p + 1].l # i - 1 /\ o.nodes[n.p + 1].r # i - 1)                         \* the block's parent does not list it
+      \/ n.l >= 0                                                                                   \* the block took a left operand (after a closed bracket / suffix operator)
+      \/ (\E j \in DOMAIN o.nodes : o.nodes[j].p = i - 1 /\ n.l # j - 1 /\ n.r # j - 1)               \* a node names the block as parent, the block does not list it
 Structural(o, i) == LET n == o.nodes[i + 1] IN
                     n.d = "ElseJump" \/ (n.d \in {"List", "CommaList"} /\ n.p >= 0 /\ n.p < Len(o.nodes) /\ o.nodes[n.p + 1].d = n.d)
 KF_C04Attr(o, missing) == IF \A i \in missing : Structural(o, i) THEN "C04-structural-nodes-own-no-instruction"
